@@ -85,11 +85,13 @@ struct Outcome {
     calls: u64,
     fault_fired: bool,
     error_kinds: Vec<String>,
+    /// (kind of the failed call, number of later non-close backend calls)
+    latch: Option<(String, usize)>,
 }
 
 fn run_workload(w: &[Txn], cfg: &Cfg, fail_at: u64, permanent: bool) -> (Outcome, Vec<u8>, Vec<u8>) {
     let backend = MemBackend::fresh();
-    let mut out = Outcome { acked: vec![(Model::default(), true)], in_doubt: vec![], violations: vec![], calls: 0, fault_fired: false, error_kinds: vec![] };
+    let mut out = Outcome { acked: vec![(Model::default(), true)], in_doubt: vec![], violations: vec![], calls: 0, fault_fired: false, error_kinds: vec![], latch: None };
     // the property quantifies over histories after a completed creation: no faults during create
     let db = open_db(backend.clone(), cfg).expect("create");
     let base_calls = backend.mon.calls.load(Ordering::SeqCst);
@@ -98,6 +100,7 @@ fn run_workload(w: &[Txn], cfg: &Cfg, fail_at: u64, permanent: bool) -> (Outcome
         backend.mon.fail_permanent.store(permanent, Ordering::SeqCst);
     }
     backend.mon.record.store(true, Ordering::SeqCst);
+    backend.mon.record_calls.store(true, Ordering::SeqCst);
     let mut db = Some(db);
     let r = catch_unwind(AssertUnwindSafe(|| {
         let mut current = Model::default();
@@ -112,7 +115,10 @@ fn run_workload(w: &[Txn], cfg: &Cfg, fail_at: u64, permanent: bool) -> (Outcome
                     }
                 }
                 Ok(mut txn) => {
-                    if fired_before {
+                    // an absorbed failure (a best-effort eviction write that is retried later) is
+                    // not surfaced to any caller and does not latch; once an error HAS been
+                    // reported, writes must be refused until the database is reopened
+                    if fired_before && !out.error_kinds.is_empty() {
                         out.violations.push(format!("fault-write-accepted|txn {i}: begin_write() succeeded after a storage failure (writes must be refused until reopen)"));
                     }
                     let _ = txn.set_durability(if t.durable { Durability::Immediate } else { Durability::None });
@@ -179,6 +185,24 @@ fn run_workload(w: &[Txn], cfg: &Cfg, fail_at: u64, permanent: bool) -> (Outcome
     for x in backend.mon.contract_violations.lock().unwrap().iter() {
         out.violations.push(format!("backend-contract|{x}"));
     }
+    // the error latch: once a call has failed, nothing but close() reaches the backend any more
+    // (a failed best-effort eviction write is the one documented exception: it does not latch)
+    if fail_at != 0 {
+        let calls = backend.mon.call_log.lock().unwrap();
+        let k = fail_at as usize; // 1-based index among the calls after creation
+        if k <= calls.len() {
+            let failed_kind = calls[k - 1].split(':').next().unwrap_or("").to_string();
+            let later: Vec<&String> = calls[k..].iter().filter(|c| c.as_str() != "close").collect();
+            out.latch = Some((failed_kind.clone(), later.len()));
+            if failed_kind != "write" && !later.is_empty() {
+                out.violations.push(format!(
+                    "fault-latch|after the failed {failed_kind} (call {k}) {} further calls reached the backend, first: {}",
+                    later.len(),
+                    later[0]
+                ));
+            }
+        }
+    }
     if backend.mon.closes.load(Ordering::SeqCst) != 1 {
         out.violations.push(format!("backend-contract|close-count|close() called {} times", backend.mon.closes.load(Ordering::SeqCst)));
     }
@@ -242,7 +266,7 @@ pub fn run(args: &Args) {
     let mut out = Out::new(&args.out);
     let mut rng = Rng::new(args.seed ^ 0xC08);
     out.comment(&format!("C08 fault seed={} thorough={}", args.seed, args.thorough));
-    let workloads = if args.thorough { 120 } else { 8 };
+    let workloads = if args.thorough { 16 } else { 8 };
     let only: Option<usize> = args.extra.iter().position(|a| a == "--only-case").and_then(|i| args.extra.get(i + 1)).and_then(|x| x.parse().ok());
     for case_index in 0..workloads {
         let mut r = rng.fork();
@@ -259,12 +283,12 @@ pub fn run(args: &Args) {
         }
         let n = base.calls;
         out.add("backend_calls_in_base_runs", n);
-        let stride = 1u64;
+        let stride = if args.thorough { 1 } else { (n / 400).max(1) };
         let ks: Vec<u64> = (1..=n).step_by(stride as usize).collect();
         out.line(&format!("fault workload calls={n} injected-points={}", ks.len() * 2));
         // run the injections in parallel
         let jobs: Vec<(u64, bool)> = ks.iter().flat_map(|k| [(*k, true), (*k, false)]).collect();
-        let results: Mutex<Vec<(u64, bool, Vec<String>, bool, Vec<String>)>> = Mutex::new(vec![]);
+        let results: Mutex<Vec<(u64, bool, Vec<String>, bool, Vec<String>, Option<(String, usize)>)>> = Mutex::new(vec![]);
         let next = std::sync::atomic::AtomicUsize::new(0);
         std::thread::scope(|s| {
             for _ in 0..16 {
@@ -279,13 +303,19 @@ pub fn run(args: &Args) {
                     if let Some(x) = check_reopen(image, &cfg, &o, "storage as left at drop") {
                         v.push(x);
                     }
-                    results.lock().unwrap().push((k, permanent, v, o.fault_fired, o.error_kinds.clone()));
+                    results.lock().unwrap().push((k, permanent, v, o.fault_fired, o.error_kinds.clone(), o.latch.clone()));
                 });
             }
         });
         let mut results = results.into_inner().unwrap();
         results.sort_by_key(|r| (r.0, r.1));
-        for (k, permanent, v, fired, kinds) in results {
+        for (k, permanent, v, fired, kinds, latch) in results {
+            if let Some((kind, later)) = &latch {
+                out.line(&format!("latch fail {kind} later={later} mode={}", if permanent { "permanent" } else { "once" }));
+                if kind == "write" && *later > 0 {
+                    out.count("failed_write_did_not_latch");
+                }
+            }
             out.count("injections");
             if fired {
                 out.count("injections_fired");
